@@ -13,11 +13,19 @@
 // is reachable this way.
 // c04_trace_end() returns "name:bytes_written:allzero,..." for the files removed during the
 // operation (sorted), i.e. what was written to each file between its last open and its removal.
+//
+// I/O *errors* (c04_arm_fail(op, k, short)): every interposed call on a tracked file - fopen in any
+// mode, write/writev of > 0 bytes, unlink/remove - has an index within the operation (the *call
+// index*, counted separately from the mutating events).  The k-th call fails: fopen returns NULL
+// (ENOSPC), unlink/remove return -1 (EACCES) without removing, a write gets min(short, n-1) bytes
+// through (a short write) and from then on every write to that descriptor fails with ENOSPC until
+// it is closed - what a full disk, a quota or RLIMIT_FSIZE do.
 #undef _FILE_OFFSET_BITS   // both fopen and fopen64 are defined below: no asm renaming of one onto the other
 #ifndef _GNU_SOURCE
 #define _GNU_SOURCE
 #endif
 #include <dlfcn.h>
+#include <errno.h>
 #include <fcntl.h>
 #include <stdarg.h>
 #include <stdio.h>
@@ -39,11 +47,17 @@ bool active = false;          // inside a traced operation
 bool in_hook = false;         // re-entrancy guard
 long crash_at = -1;
 int crash_op = -1;
+long fail_at = -1;            // call index that fails (armed by c04_arm_fail)
+int fail_op = -1;
+long fail_short = 0;
+long calls = 0;               // call index within the operation
+int failing_fd = -1;          // descriptor on which every further write fails
 int cur_op = -1;
 long events = 0;
 std::map<int, FdInfo>* fds = nullptr;
 std::map<std::string, PathInfo>* paths = nullptr;   // written since last open, by path
 std::vector<std::string>* removed = nullptr;
+std::map<std::string, bool>* opened_in_op = nullptr;   // paths opened since c04_trace_begin
 std::string* last_trace = nullptr;
 
 void init_once() {
@@ -51,6 +65,7 @@ void init_once() {
     fds = new std::map<int, FdInfo>();
     paths = new std::map<std::string, PathInfo>();
     removed = new std::vector<std::string>();
+    opened_in_op = new std::map<std::string, bool>();
     last_trace = new std::string();
     if (const char* e = getenv("C04_CRASH_AT")) crash_at = atol(e);
     if (const char* e = getenv("C04_CRASH_OP")) crash_op = atoi(e);
@@ -64,6 +79,14 @@ void mutating_event() {
         _exit(77);
     }
     ++events;
+}
+
+// true iff this call (a new call index) is the one that has to fail
+bool failing_call() {
+    if (!active) return false;
+    const bool hit = fail_at >= 0 && cur_op == fail_op && calls == fail_at;
+    ++calls;
+    return hit;
 }
 
 std::string label_of(const std::string& path) {
@@ -94,13 +117,26 @@ FILE* do_fopen(const char* fn, const char* path, const char* mode) {
     Fn f = (strcmp(fn, "fopen64") == 0 && r64) ? r64 : r;
     if (in_hook || !tracked_path(path)) return f(path, mode);
     in_hook = true;
+    if (failing_call()) {
+        in_hook = false;
+        errno = ENOSPC;
+        return nullptr;
+    }
     if (mode && (strchr(mode, 'w') || strchr(mode, 'a'))) mutating_event();
     FILE* fp = f(path, mode);
     if (fp) {
         FdInfo info;
         info.path = path;
+        // the per-path byte count restarts when the file is created/truncated and at the first open of
+        // an operation; a second wipe of the same file inside one operation keeps counting
+        const bool fresh = (mode && strchr(mode, 'w')) || !opened_in_op->count(path);
+        (*opened_in_op)[path] = true;
+        if (!fresh) {
+            const auto it = paths->find(path);
+            if (it != paths->end()) { info.written = it->second.written; info.allzero = it->second.allzero; }
+        }
         (*fds)[fileno(fp)] = info;
-        (*paths)[path] = PathInfo{};
+        if (fresh) (*paths)[path] = PathInfo{};
     }
     in_hook = false;
     return fp;
@@ -116,7 +152,17 @@ ssize_t write(int fd, const void* buf, size_t n) {
     using Fn = ssize_t (*)(int, const void*, size_t);
     static Fn r = real<Fn>("write");
     if (!fds || in_hook || fds->find(fd) == fds->end()) return r(fd, buf, n);
+    if (fd == failing_fd) { errno = ENOSPC; return -1; }
     in_hook = true;
+    if (n > 0 && failing_call()) {
+        failing_fd = fd;
+        size_t w = fail_short > 0 ? static_cast<size_t>(fail_short) : 0;
+        if (w > n - 1) w = n - 1;
+        if (w > 0) { mutating_event(); note_write(fd, buf, w); }
+        in_hook = false;
+        if (w == 0) { errno = ENOSPC; return -1; }
+        return r(fd, buf, w);
+    }
     if (n > 0) mutating_event();
     note_write(fd, buf, n);
     in_hook = false;
@@ -127,19 +173,49 @@ ssize_t writev(int fd, const struct iovec* iov, int cnt) {
     using Fn = ssize_t (*)(int, const struct iovec*, int);
     static Fn r = real<Fn>("writev");
     if (!fds || in_hook || fds->find(fd) == fds->end()) return r(fd, iov, cnt);
+    if (fd == failing_fd) { errno = ENOSPC; return -1; }
     in_hook = true;
     size_t total = 0;
     for (int i = 0; i < cnt; ++i) total += iov[i].iov_len;
+    if (total > 0 && failing_call()) {
+        failing_fd = fd;
+        size_t w = fail_short > 0 ? static_cast<size_t>(fail_short) : 0;
+        if (w > total - 1) w = total - 1;
+        std::string part;
+        for (int i = 0; i < cnt && part.size() < w; ++i) {
+            const size_t take = std::min(w - part.size(), iov[i].iov_len);
+            part.append(static_cast<const char*>(iov[i].iov_base), take);
+        }
+        if (w > 0) { mutating_event(); note_write(fd, part.data(), w); }
+        in_hook = false;
+        if (w == 0) { errno = ENOSPC; return -1; }
+        using W = ssize_t (*)(int, const void*, size_t);
+        static W rw = real<W>("write");
+        return rw(fd, part.data(), w);
+    }
     if (total > 0) mutating_event();
     for (int i = 0; i < cnt; ++i) note_write(fd, iov[i].iov_base, iov[i].iov_len);
     in_hook = false;
     return r(fd, iov, cnt);
 }
 
+// libstdc++ closes its streams with fclose(); glibc's fclose does not go through close@plt
+int fclose(FILE* fp) {
+    using Fn = int (*)(FILE*);
+    static Fn r = real<Fn>("fclose");
+    if (fp && fds && !in_hook) {
+        const int fd = fileno(fp);
+        fds->erase(fd);
+        if (fd == failing_fd) failing_fd = -1;
+    }
+    return r(fp);
+}
+
 int close(int fd) {
     using Fn = int (*)(int);
     static Fn r = real<Fn>("close");
     if (fds && !in_hook) fds->erase(fd);
+    if (fd == failing_fd) failing_fd = -1;
     return r(fd);
 }
 
@@ -156,6 +232,7 @@ int unlink(const char* path) {
     init_once();
     if (in_hook || !tracked_path(path)) return r(path);
     in_hook = true;
+    if (failing_call()) { in_hook = false; errno = EACCES; return -1; }
     mutating_event();
     if (active) note_removed(path);
     in_hook = false;
@@ -168,6 +245,7 @@ int remove(const char* path) {
     init_once();
     if (in_hook || !tracked_path(path)) return r(path);
     in_hook = true;
+    if (failing_call()) { in_hook = false; errno = EACCES; return -1; }
     mutating_event();
     if (active) note_removed(path);
     int rc = r(path);
@@ -182,20 +260,34 @@ void c04_arm(int op_index, long k) {
     crash_at = k;
 }
 
+// make the k-th call of operation `op_index` fail (see the header comment)
+void c04_arm_fail(int op_index, long k, long short_bytes) {
+    init_once();
+    fail_op = op_index;
+    fail_at = k;
+    fail_short = short_bytes;
+}
+
 void c04_trace_begin(int op_index) {
     init_once();
     active = true;
     cur_op = op_index;
     events = 0;
+    calls = 0;
+    opened_in_op->clear();
+    failing_fd = -1;
     removed->clear();
 }
 
 // returns the removed-file trace of the operation; also leaves the event count in c04_last_events
 long c04_last_events = 0;
+long c04_last_calls = 0;
 const char* c04_trace_end() {
     init_once();
     active = false;
     c04_last_events = events;
+    c04_last_calls = calls;
+    fail_at = -1;
     std::sort(removed->begin(), removed->end());
     last_trace->clear();
     for (size_t i = 0; i < removed->size(); ++i) { if (i) *last_trace += ","; *last_trace += (*removed)[i]; }
